@@ -89,7 +89,7 @@ MAY_OPEN = {'convert_markup', 'convert_markup_impl', 'convert_comment'}
 LEAF_EXACT = '[leaf_text_exact C10 C08] r@ == txt({n}.text_s())'
 VERBATIM = '[verbatim_when_disabled C07] self.store_s().disabled_s({n}.span_s()) ==> r@ == txt({n}.full_text_s())'
 EXTRA = {
-    'convert_expr': {'ensures': [VERBATIM, '[leaf_kinds_exact C10 C08] !self.store_s().disabled_s({n}.span_s()) && is_exact_leaf_kind({n}.kind_s()) ==> r@ == txt({n}.text_s())'], 'serves': 'C07 C10'},
+    'convert_expr': {'ensures': ['[result_is_a_function_of_context_and_node assumed C01] r@ == expr_doc_s(ctx, {n})', VERBATIM, '[leaf_kinds_exact C10 C08] !self.store_s().disabled_s({n}.span_s()) && is_exact_leaf_kind({n}.kind_s()) ==> r@ == txt({n}.text_s())'], 'serves': 'C07 C10'},
     'convert_expr_impl': {'ensures': ['[leaf_kinds_exact C10 C08] is_exact_leaf_kind({n}.kind_s()) ==> r@ == txt({n}.text_s())'], 'serves': 'C10',
                           'proof': ['reveal_strlit("none"); reveal_strlit("auto"); reveal_strlit("break"); reveal_strlit("continue"); pf_loop_kw({n});',
                                     'assert(!is_inner_kind({n}.kind_s()) && !is_ws_kind({n}.kind_s()) ==> w_ok(txt({n}.text_s()), sig_leaves({n})));',
@@ -164,6 +164,10 @@ W_PROVED = {
     # function calls
     'convert_func_call', 'convert_func_call_plain', 'convert_func_call_args', 'convert_args', 'convert_arg',
 }
+# flow producers that convert every inner expression child with `self.convert_expr(ctx, expr)` where `ctx` is the closure's own parameter
+CTX_PASSING = {'convert_spread', 'convert_unary', 'convert_binary', 'convert_expr_flow', 'convert_set_rule', 'convert_show_rule',
+               'convert_math_attach', 'convert_math_frac', 'convert_math_root'}
+
 # converters whose W clause is not about the whole node (hand-written in their own .vc file)
 W_OWN = {'convert_table', 'convert_parenthesized_args', 'convert_parenthesized_args_as_list', 'convert_additional_args'}
 
@@ -317,6 +321,8 @@ def main():
             out.append('    - !is_comment_kind(%s.kind_s())' % cp)
             out.append('  ensures')
             out.append('    - [producer_docs_closed C04 C06 C12] fitem.0 matches Some(rp) ==> doc_closed(rp.doc@, self.unit_s())')
+            if fn in CTX_PASSING:
+                out.append('    - [uses_the_context_it_is_given C01] ast::expr_kind(%s.kind_s()) && is_inner_kind(%s.kind_s()) ==> (fitem.0 matches Some(rp) && rp.doc@ == expr_doc_s($1, $2))' % (cp, cp))
             if fn == 'convert_list_item_like':
                 out.append('    - [paragraph_break_terminates_a_line_comment C04 C06] %s.kind_s() == SyntaxKind::Parbreak ==> (fitem.0 matches Some(rp) && t_closes(rp.doc@))' % cp)
             if fn in W_PROVED:
